@@ -132,3 +132,36 @@ E | t2 | t2 | 0 | x
 		t.Fatalf("expected closed-set and unique violations: %+v violations=%d", s, rep.Count())
 	}
 }
+
+func TestTwinAuditLines(t *testing.T) {
+	// canonical state a audited from two histories: op x agrees (also with the search's own
+	// transition), op y does not
+	writeTrace(t, `C | cfg
+R | a | m
+S | a | m | 0 | 1 | A | -
+E | a | b | 0 | x | h1 | tb
+A | a | (enabled operations) | h1 | ops
+A | a | (enabled operations) | h2 | ops
+A | a | x | h1 | tb
+A | a | x | h2 | tb
+A | a | y | h1 | tc
+A | a | y | h2 | td
+`)
+	g := loadTraces("C18")["cfg"]
+	if g.auditStates != 1 || g.auditOps != 4 {
+		t.Fatalf("audit counts: %d states, %d ops", g.auditStates, g.auditOps)
+	}
+	if len(g.suspect) != 1 || !strings.Contains(g.suspect[0], "op y") {
+		t.Fatalf("expected one suspect for op y, got %v", g.suspect)
+	}
+	// disagreement between the audit's second twin and the search's transition
+	writeTrace(t, `C | cfg
+R | a | m
+S | a | m | 0 | 1 | A | -
+E | a | b | 0 | x | h1 | tb
+A | a | x | h2 | tz
+`)
+	if g := loadTraces("C18")["cfg"]; len(g.suspect) != 1 {
+		t.Fatalf("expected one suspect against the E line, got %v", g.suspect)
+	}
+}
